@@ -520,8 +520,13 @@ func (pd *perRawBitData) parseSequenceOf(v reflect.Value, params fieldParameters
 		}
 	} else {
 		perTrace(3, fmt.Sprintf("Encoding Length(%d) of \"SEQUENCE OF\" with Semi-Constraint Range(%d..)", numElements, lb))
-		pd.appendAlignBits()
-		pd.bytes = append(pd.bytes, byte(numElements&0xff))
+		// X.691 20.6 with 11.9: an unconstrained length determinant (two octets from 128 elements on)
+		if numElements >= 16384 {
+			return fmt.Errorf("SEQUENCE OF with %d elements needs a fragmented length, which is not supported", numElements)
+		}
+		if err := pd.appendLength(-1, uint64(numElements)); err != nil {
+			return err
+		}
 		perTrace(1, perRawBitLog(8, len(pd.bytes), pd.bitsOffset, uint64(numElements)))
 	}
 	perTrace(2, fmt.Sprintf("Encoding  \"SEQUENCE OF\" struct %s with len(%d)", v.Type().Elem().Name(), numElements))
